@@ -8,6 +8,7 @@ import Verif.Generated.Regexes
 import Verif.Model.ReCap
 import Verif.Model.SchemaMatch
 import Verif.Model.FilterCost
+import Verif.Model.RecvCost
 
 open Lean
 
@@ -73,6 +74,13 @@ def pureOp (op : String) (j : Json) : Except String Json := do
     match FilterCost.parseFilterTextC depth cps with
     | (.ok _, k) => return Json.mkObj [("ok", Json.bool true), ("calls", k)]
     | (.error _, k) => return Json.mkObj [("ok", Json.bool false), ("calls", k)]
+  | "recvattempts" =>
+    -- the counting parse loop of receive on a buffer: number of unpack_ldap_message calls, messages returned, bytes left
+    let bs ← getBytes j "hex"
+    let depth := (getNat j "depth").toOption.getD defaultDepth
+    match RecvCost.parseLoopC (regsFromJson j) depth bs.length bs with
+    | (.ok (ms, rest), k) => return Json.mkObj [("attempts", k), ("msgs", ms.length), ("rest", rest.length)]
+    | (.error e, k) => return Json.mkObj [("attempts", k), ("err", errName e)]
   | "attr_valid" => return Json.mkObj [("ok", Json.bool (validAttr (← getBytes j "hex")))]
   | "rematch" =>
     let name ← getStr j "name"
